@@ -19,7 +19,9 @@ LEVEL = "exploration"
 RULE = ("every request list up to the stated length x every parameter combination; non-trivial = "
         "distinct (parameters, request) that was not refused and produced at least two lines or a "
         "range line")
-ASSUMPTIONS = ["a documented refusal is ValueError/TypeError (e.g. an a-b token with an 'eq' template, "
+ASSUMPTIONS = ["a port operator after a NUMERIC protocol is treated as not valid for the platform "
+               "(the library itself always renders the keyword when ports are present)",
+               "a documented refusal is ValueError/TypeError (e.g. an a-b token with an 'eq' template, "
                "several eq operands on NX-OS)", "readers define validity for the platform"]
 REQUIRED = ["generated_ok", "refused", "range_line", "multi_operand_eq_line", "protocols_ok",
             "both_sides_ok"]
@@ -36,7 +38,7 @@ TEMPLATES = [
 ]
 PTOKENS = ["0", "1", "6", "17", "255", "1-2", "5-7", "254-255"]
 PTEMPLATES = ["permit ip any any", "deny ip host 10.0.0.1 any log",
-              "10 permit ip any 10.0.0.0 0.0.0.255"]
+              "10 permit ip any 10.0.0.0 0.0.0.255", "permit tcp any eq 5000 any eq 6000 log"]
 
 
 def _L(tier):
@@ -280,6 +282,8 @@ def _protocols(platform, ctx):
                 else:
                     want.add(int(t))
             for template in PTEMPLATES:
+                if " eq " in template and not want <= {6, 17}:
+                    continue  # a template with ports makes sense for tcp/udp only
                 for pnr in (False, True):
                     ctx.ev()
                     case = dict(kind="protocols", platform=platform, request=request,
@@ -313,6 +317,14 @@ def _protocols(platform, ctx):
                             ok = False
                             break
                         tok = ln.split()[2 if ln.split()[0].isdigit() else 1]
+                        if (r._exprs[0] or r._exprs[1]) and tok.isdigit():
+                            ctx.viol("range_protocols:port_operator_after_numeric_protocol",
+                                     dict(case, line=ln), ln, "tcp/udp keyword when ports are present")
+                            ok = False
+                            break
+                        if (r._exprs[0] or r._exprs[1]):
+                            got.add(r.proto)
+                            continue
                         if pnr and not tok.isdigit():
                             ctx.viol("range_protocols:protocol_nr_ignored", dict(case, line=ln), tok,
                                      "number")
